@@ -139,7 +139,7 @@ var clauseKeywords = map[string]bool{
 	"nowrap": true, "concurrent": true, "deterministic": true, "ghost": true, "spec": true,
 	"axiom": true, "lemma": true, "const-invariant": true, "type": true, "guarded_by": true,
 	"monitor": true, "invariant": true, "cover": true, "trusted": true, "opt": true, "assert": true,
-	"havoc-calls": true, "end": true, "recv": true, "recv-from": true,
+	"havoc-calls": true, "end": true, "recv": true, "recv-from": true, "sort-less": true,
 }
 
 func parseContractFile(path, pkgPath string) (*ContractFile, error) {
@@ -432,6 +432,11 @@ func parseContractFile(path, pkgPath string) (*ContractFile, error) {
 			for _, f := range fs[1:] {
 				curType.GuardedBy[f] = fs[0]
 			}
+		case "sort-less":
+			if curType == nil {
+				return nil, fail(l, "sort-less outside type block")
+			}
+			curType.GuardedBy["$sort-less"] = strings.TrimSpace(rest)
 		case "monitor":
 			if curType == nil {
 				return nil, fail(l, "monitor outside type block")
@@ -600,6 +605,15 @@ func lexSpec(s string) ([]tok, error) {
 			j := i
 			for j < len(s) && (unicode.IsDigit(rune(s[j])) || s[j] == 'x' || s[j] == '_' || (s[j] >= 'a' && s[j] <= 'f') || (s[j] >= 'A' && s[j] <= 'F')) {
 				j++
+			}
+			if j+1 < len(s) && s[j] == '.' && s[j+1] >= '0' && s[j+1] <= '9' {
+				j++
+				for j < len(s) && s[j] >= '0' && s[j] <= '9' {
+					j++
+				}
+				ts = append(ts, tok{"flt", s[i:j], i})
+				i = j
+				break
 			}
 			ts = append(ts, tok{"num", strings.ReplaceAll(s[i:j], "_", ""), i})
 			i = j
@@ -960,6 +974,8 @@ func (p *sparser) primary() (*SExpr, error) {
 	switch t.kind {
 	case "num":
 		return &SExpr{Op: "num", Name: t.text}, nil
+	case "flt":
+		return &SExpr{Op: "flt", Name: t.text}, nil
 	case "str":
 		return &SExpr{Op: "str", Name: t.text}, nil
 	case "id":
